@@ -19,7 +19,7 @@ Local Open Scope N_scope.
 
 Record cfg := {
   fix_imm_order : bool;   (* F3: NewIterators lists sealed memtables newest first *)
-  fix_tomb_last : bool;   (* F8: advance records lastKey for a skipped tombstone *)
+  fix_tomb_last : bool;   (* F8: forward advance records lastKey for a skipped tombstone *)
   fix_db_dead : bool;     (* DBIterator.materialize tests the delete bit, not only Value == nil *)
   fix_db_rseek : bool;    (* DBIterator.Seek in reverse seeks below every version of the key *)
   fix_txn_cf : bool;      (* TxnIterator.advance skips entries outside the default column family *)
@@ -219,6 +219,26 @@ Record topts := {
   o_pik : bool;            (* prefixIsKey (NewKeyIterator) *)
   o_prefix : bytes; o_since : N; o_lower : bytes; o_upper : bytes }.
 
+(** What [advance] does with the record under the cursor: move on (with a
+    possibly updated lastKey), give up (bound reached: the iterator turns
+    invalid), or stop at it. *)
+Inductive verdict1 := VSkip (last : bytes) | VStop | VEmit.
+
+Definition judge (c : cfg) (now readTs : N) (o : topts) (last : bytes) (x : rec) : verdict1 :=
+  let '(cf, u) := split_base (r_key x) in
+  if fix_txn_cf c && negb (cf =? cf_default) then VSkip last
+  else if nonempty (o_lower o) && bytes_ltb u (o_lower o) then (if o_rev o then VStop else VSkip last)
+  else if nonempty (o_upper o) && bytes_leb (o_upper o) u then (if o_rev o then VSkip last else VStop)
+  else if readTs <? r_ver x then VSkip last
+  else if (0 <? o_since o) && (r_ver x <=? o_since o) then VSkip last
+  else if nonempty (o_prefix o)
+          && negb (if o_pik o then bytes_eqb u (o_prefix o) else is_prefix (o_prefix o) u)
+  then VSkip last
+  else if negb (o_all o) && nonempty last && bytes_eqb last u then VSkip last
+  else if deadb now x then
+    VSkip (if fix_tomb_last c && negb (o_all o) && negb (o_rev o) then u else last)
+  else VEmit.
+
 (** One call of [advance] on the records still to come: the item it stops at
     (None = invalid), the new lastKey, and what a following Next continues on. *)
 Fixpoint adv (c : cfg) (now readTs : N) (o : topts) (last : bytes) (l : list rec)
@@ -226,21 +246,11 @@ Fixpoint adv (c : cfg) (now readTs : N) (o : topts) (last : bytes) (l : list rec
   match l with
   | [] => (None, last, [])
   | x :: l' =>
-      let '(cf, u) := split_base (r_key x) in
-      if fix_txn_cf c && negb (cf =? cf_default) then adv c now readTs o last l'
-      else if nonempty (o_lower o) && bytes_ltb u (o_lower o) then
-        (if o_rev o then (None, last, l') else adv c now readTs o last l')
-      else if nonempty (o_upper o) && bytes_leb (o_upper o) u then
-        (if o_rev o then adv c now readTs o last l' else (None, last, l'))
-      else if readTs <? r_ver x then adv c now readTs o last l'
-      else if (0 <? o_since o) && (r_ver x <=? o_since o) then adv c now readTs o last l'
-      else if nonempty (o_prefix o)
-              && negb (if o_pik o then bytes_eqb u (o_prefix o) else is_prefix (o_prefix o) u)
-      then adv c now readTs o last l'
-      else if negb (o_all o) && nonempty last && bytes_eqb last u then adv c now readTs o last l'
-      else if deadb now x then
-        adv c now readTs o (if fix_tomb_last c && negb (o_all o) then u else last) l'
-      else (Some (mk_item x), u, l')
+      match judge c now readTs o last x with
+      | VSkip last' => adv c now readTs o last' l'
+      | VStop => (None, last, l')
+      | VEmit => (Some (mk_item x), snd (split_base (r_key x)), l')
+      end
   end.
 
 (** Next* until invalid. *)
@@ -306,3 +316,25 @@ Definition txn_list (c : cfg) (now : N) (s : state) (readTs : N) (pw : list rec)
 Definition current : cfg :=
   {| fix_imm_order := true; fix_tomb_last := true; fix_db_dead := true; fix_db_rseek := true;
      fix_txn_cf := true; fix_pend_cmp := true |}.
+
+(** * Txn.Get (the point read the listings are compared with)
+
+    Pending write first; otherwise LSM.Get at readTs.  A hit in a table comes
+    back through kv.SafeCopy(nil, value), which turns an empty value into a nil
+    slice, and Txn.Get treats [Value == nil && Meta == 0] as not found; a hit in
+    a memtable keeps a non-nil empty slice. *)
+Definition txn_get (now : N) (s : state) (readTs : N) (pw : list rec) (bk : bytes) : option bytes :=
+  match find (fun p => bytes_eqb (r_key p) bk) pw with
+  | Some p => if deadb now p then None else Some (r_val p)
+  | None =>
+      match first_some (mem_get bk readTs (st_mem s) :: map (fun m => mem_get bk readTs (snd m)) (rev (st_imms s))) with
+      | Some r => if deadb now r then None else Some (r_val r)
+      | None =>
+          match get s bk readTs with
+          | Some r =>
+              if negb (nonempty (r_val r)) && (r_meta r =? 0) then None
+              else if deadb now r then None else Some (r_val r)
+          | None => None
+          end
+      end
+  end.
